@@ -1,6 +1,6 @@
 (** C05 — proofs, part 4: literal values and directive applications.
-    check_value = [] implies the specification's coercion judgement (without the 32-bit range
-    condition, see C05_sound_directive_args_int_range_refuted), and the rules about directive applications. *)
+    check_value = [] implies the specification's coercion judgement (32-bit range of Int literals included,
+    since 556742c), and the rules about directive applications. *)
 From V Require Import Base.Util Gql.Ast C05.Model C05.Spec C05.Proofs C05.Proofs2 C05.Proofs3.
 
 (** * one-step unfoldings *)
@@ -141,9 +141,20 @@ Proof.
   destruct (f a); cbn [negb andb orb]; [reflexivity | exact IH].
 Qed.
 
+Lemma digits_value_parse acc l : digits_value acc l = parse_digits acc l.
+Proof.
+  revert acc. induction l as [|c r IH]; intros acc; cbn [digits_value parse_digits]; [reflexivity|].
+  unfold digit. destruct ((48 <=? c)%N && (c <=? 57)%N); [apply IH | reflexivity].
+Qed.
+Lemma parses_as_i32_int32 x : parses_as_i32 x = int32 x.
+Proof.
+  unfold parses_as_i32, int32, parse_int. destruct x as [|c r]; [reflexivity|].
+  rewrite digits_value_parse. destruct (parse_digits 0 _); reflexivity.
+Qed.
+
 Lemma builtin_scalar_sound n v :
   builtin_scalar_ok n v = true -> (forall q, v <> VNull q) -> (forall x q, v <> VVar x q) ->
-  (if str_eqb n (s "Int") then (match v with VInt _ x => negb false || int32 x | _ => false end)
+  (if str_eqb n (s "Int") then (match v with VInt _ x => negb true || int32 x | _ => false end)
    else if str_eqb n (s "Float") then (match v with VInt _ _ | VFloat _ _ => true | _ => false end)
    else if str_eqb n (s "String") then (match v with VString _ _ => true | _ => false end)
    else if str_eqb n (s "Boolean") then (match v with VBool _ _ => true | _ => false end)
@@ -151,12 +162,10 @@ Lemma builtin_scalar_sound n v :
    else true) = true.
 Proof.
   unfold builtin_scalar_ok. intros H Hn Hv.
-  assert (Hcase : forall (b : bool), (match v with VNull _ => true | _ => b end) = true -> b = true).
-  { intros b Hb. destruct v; try exact Hb. exfalso. eapply Hn. reflexivity. }
   destruct (str_eqb n (s "Boolean")) eqn:E1.
   { apply str_eqb_eq in E1. subst n. cbn. destruct v; try reflexivity; try discriminate. exfalso; eapply Hn; reflexivity. }
   destruct (str_eqb n (s "Int")) eqn:E2.
-  { destruct v; try reflexivity; try discriminate. exfalso; eapply Hn; reflexivity. }
+  { destruct v; try reflexivity; try discriminate; [cbn [negb orb]; rewrite <- parses_as_i32_int32; exact H | exfalso; eapply Hn; reflexivity]. }
   destruct (str_eqb n (s "Float")) eqn:E3.
   { destruct v; try reflexivity; try discriminate. exfalso; eapply Hn; reflexivity. }
   destruct (str_eqb n (s "String")) eqn:E4.
@@ -221,8 +230,8 @@ Section Values.
   Lemma check_named_sound v t n :
     (forall q, v <> VNull q) -> (forall x q, v <> VVar x q) ->
     (forall p fs, v = VObject p fs ->
-       Forall (fun kv => forall t, check_value doc (snd kv) t = [] -> value_ok false doc (snd kv) t = true) fs) ->
-    check_named (check_value doc) doc v t n = [] -> named_ok (value_ok false doc) false doc v n = true.
+       Forall (fun kv => forall t, check_value doc (snd kv) t = [] -> value_ok true doc (snd kv) t = true) fs) ->
+    check_named (check_value doc) doc v t n = [] -> named_ok (value_ok true doc) true doc v n = true.
   Proof.
     intros Hn Hv HIH. unfold check_named, named_ok. rewrite first_type_lookup.
     destruct (lookup_t doc (iname n)) as [td|] eqn:L; [|discriminate].
@@ -238,13 +247,13 @@ Section Values.
     - (* input object *) destruct v; try discriminate; [exfalso; eapply Hn; reflexivity|].
       destruct (input_object_check (check_value doc) fields fs) as [[errs ok] info] eqn:E. intros H.
       apply app_eq_nil in H as [H1 H2]. destruct ok; [|discriminate].
-      pose proof (input_object_sound (check_value doc) (value_ok false doc) fields fs
+      pose proof (input_object_sound (check_value doc) (value_ok true doc) fields fs
                     (input_fields_nodup _ _ _ _ _ _ Lin) (HIH _ fs eq_refl)) as Hs.
       rewrite E in Hs. cbn [fst snd] in Hs. destruct (Hs H1 eq_refl) as [A [B C]].
       unfold keys_of in A. rewrite A, B, C. reflexivity.
   Qed.
 
-  Lemma value_sound v : forall t, check_value doc v t = [] -> value_ok false doc v t = true.
+  Lemma value_sound v : forall t, check_value doc v t = [] -> value_ok true doc v t = true.
   Proof.
     induction v using value_ind'; intros t; induction t as [tn0|t IHt|tq t IHt];
       rewrite check_value_eq, value_ok_eq; try discriminate; intros Hc;
@@ -264,7 +273,7 @@ Section Values.
     NoDup (map (fun x => iname (iv_name x)) (args_of (dd_args d))) ->
     NoDup (keys_of (app_args a)) ->
     check_arguments doc ppos pname kind (dir_args a) (opt_list (dd_args d)) = [] ->
-    app_args_ok false doc a d = true.
+    app_args_ok true doc a d = true.
   Proof.
     intros Hnd Hkeys. unfold app_args_ok. rewrite opt_list_args_of. fold (args_of (dd_args d)).
     set (defs := args_of (dd_args d)) in *. unfold check_arguments, app_args in *.
